@@ -268,7 +268,8 @@ def main():
             merged[o] = [dict(f), inp]
     violations = [(o, v[0], v[1]) for o, v in merged.items()]
     for i, (o, f, inp) in enumerate(violations):
-        rp = os.path.join(VERIF, 'replays', '%s_%d.txt' % (pid, i))
+        rp = os.path.join(os.environ.get('VERIF_REPLAY_DIR') or os.path.join(VERIF, 'replays'), '%s_%d.txt' % (pid, i))
+        os.makedirs(os.path.dirname(rp), exist_ok=True)
         with open(rp, 'w') as fh:
             fh.write('property: %s\nfailed obligation: %s\n' % (pid, o))
             fh.write('verifier message: %s\n\n' % f.get('message'))
@@ -307,7 +308,9 @@ def main():
         'wall_s': round(wall, 2),
         'violations': len(violations),
     }
-    json.dump(evidence, open(os.path.join(VERIF, 'evidence', pid + '.json'), 'w'), indent=1)
+    evdir = os.environ.get('VERIF_EVIDENCE_DIR') or os.path.join(VERIF, 'evidence')   # seed trials write elsewhere
+    os.makedirs(evdir, exist_ok=True)
+    json.dump(evidence, open(os.path.join(evdir, pid + '.json'), 'w'), indent=1)
 
     print('[%s/%s] obligations=%d discharged=%d bounded=%d (ok %d) solver=%dms wall=%.1fs' %
           (pid, a.tier, n_obl, n_ok, len(bounded), sum(1 for b in bounded.values() if b['ok']), solver_ms, wall))
